@@ -363,10 +363,10 @@ def run(P, R, tier):
     }
     nb = ncb = npure = 0
     for key, sinks in sites.items():
-        nb += proto.check_branch(P, R, key)
-        ncb += proto.check_copyback(P, R, own, key, sinks)
-        npure += proto.check_tasks_pure(P, R, own, key, sinks)
-        proto.check_cover_tasks(P, R, key)
+        nb += proto.check_branch(P, R, proto.site_func(P, key))
+        ncb += proto.check_copyback(P, R, own, proto.site_func(P, key), sinks)
+        npure += proto.check_tasks_pure(P, R, own, proto.site_func(P, key), sinks)
+        proto.check_cover_tasks(P, R, proto.site_func(P, key))
     R.floor("BRANCH sites", nb, 8)
     R.floor("COPYBACK sinks", ncb, 5)
     R.floor("PURE tasks", npure, 9)
